@@ -331,7 +331,7 @@ def run_property(prop, tier, seed, only=None, dump=None):
         'violations': len(violations),
     }
     os.makedirs(os.path.join(HERE, 'evidence'), exist_ok=True)
-    if not only:
+    if not only and not os.environ.get('VERIF_NO_EVIDENCE'):
         with open(os.path.join(HERE, 'evidence', '%s.json' % prop), 'w') as fh:
             json.dump(ev, fh, indent=1, default=str)
     seen = set()
